@@ -18,7 +18,7 @@ func init() {
 			"R2 tiling by value identity in nextToken: every cursor-advancing call (skipSpaces, skipComment, consumeToken/consumeFieldToken) is bracketed by two loads of Lexer.pos that are the bounds of exactly one slice of Buffer stored into Space / a comment's Raw / Token.Raw, with exactly that one advancing call between the loads; Pos/End stored next to each slice are loads in the same cursor epoch as its bounds. Cursor moves only inside those calls (R1), so the slices tile the input. " +
 			"R3 the eof() arm of consumeToken only sets Kind = <eof> and advances nothing. R4 every other return path of consumeToken passes a cursor advance; lexer loops make progress (C03/R4, shared). " +
 			"Does not decide: that a computed advance is strictly positive, that Space holds only whitespace (numeric / character facts).",
-		Rules: []ruleFn{ruleC13R1, ruleC13R4, ruleC13R3, ruleC03R4, ruleC14R9, ruleC13R5, ruleC13R6},
+		Rules: []ruleFn{ruleC13R1, ruleC13R4, ruleC13R3, ruleC03R4, ruleC14R9, ruleC13R5, ruleC13R6, ruleC16R4},
 	})
 }
 
